@@ -18,6 +18,7 @@ type e2Scenario struct {
 	Name  string
 	Sc    *vsched.Scenario
 	Bound int // preemption bound for this tier (<0 unbounded)
+	Delay bool // Bound counts delays (every deviation from the default scheduler) instead of preemptions
 }
 
 type e2ShardResult struct {
@@ -57,6 +58,26 @@ func e2Confirm(sc *vsched.Scenario, f vsched.Found) (bool, string) {
 
 // runE2 explores all scenarios; sharded over processes (the scheduler is process-global).
 func runE2(rep *common.Reporter, scs []*e2Scenario, deadline time.Duration) (*e2Totals, bool) {
+	// debugging knobs (not used by the registered commands)
+	if only := os.Getenv("VERIF_ONLY"); only != "" {
+		var f []*e2Scenario
+		for _, s := range scs {
+			if strings.Contains(s.Name, only) {
+				f = append(f, s)
+			}
+		}
+		scs = f
+	}
+	if b := os.Getenv("VERIF_BOUND"); b != "" {
+		for _, s := range scs {
+			fmt.Sscan(b, &s.Bound)
+		}
+	}
+	if d := os.Getenv("VERIF_DEADLINE_S"); d != "" {
+		var n int
+		fmt.Sscan(d, &n)
+		deadline = time.Duration(n) * time.Second
+	}
 	shard, nsh := common.ShardInfo()
 	if nsh > 0 {
 		for _, s := range scs {
@@ -66,7 +87,7 @@ func runE2(rep *common.Reporter, scs []*e2Scenario, deadline time.Duration) (*e2
 				fmt.Fprintf(os.Stderr, "NONDETERMINISM in scenario %s: two runs of the default schedule differ\n%v\n%v\n", s.Name, a.Log, b.Log)
 				os.Exit(2)
 			}
-			cfg := vsched.ExploreConfig{Bound: s.Bound, Shard: shard, NShards: nsh, SplitDepth: 4 * nsh}
+			cfg := vsched.ExploreConfig{Bound: s.Bound, Delay: s.Delay, Shard: shard, NShards: nsh, SplitDepth: 4 * nsh}
 			if deadline > 0 {
 				cfg.Deadline = time.Now().Add(deadline)
 			}
@@ -160,8 +181,12 @@ func runE2(rep *common.Reporter, scs []*e2Scenario, deadline time.Duration) (*e2
 		bd := fmt.Sprint(s.Bound)
 		if s.Bound < 0 {
 			bd = "unbounded"
+		} else if s.Delay {
+			bd += " delays"
+		} else {
+			bd += " preemptions"
 		}
-		t.PerScenario = append(t.PerScenario, map[string]interface{}{"scenario": s.Name, "preemption_bound_completed": bd, "schedules": a.execs, "choice_points": a.points,
+		t.PerScenario = append(t.PerScenario, map[string]interface{}{"scenario": s.Name, "bound_completed": bd, "schedules": a.execs, "choice_points": a.points,
 			"scheduling_steps": a.steps, "max_choice_depth": a.maxDepth, "distinct_observation_logs": len(a.outcomes), "caps_hit": a.capped})
 		if len(t.Samples) < 6 && len(a.sample) > 0 {
 			smp := a.sample
